@@ -21,6 +21,7 @@ from vlib.compare import close_text3
 
 SPEC = os.path.join(env.SPEC, "Atomize")
 SITE = "atomize_vcf"
+SHAPE_EXAMPLE = {}
 
 GOLDEN_SKIP = ("basis", "atomize")
 
@@ -301,6 +302,7 @@ def replay(ck, states, seen, wdir, shapes, crashes, info_counts, ok_for_multi):
             ck.evaluations += 1
             shp = shape_of(rec, ml)
             shapes[shp] = shapes.get(shp, 0) + 1
+            SHAPE_EXAMPLE.setdefault(shp, s)
             if any(l["hidx"] != list(range(len(l["hidx"]))) for l in ml) or any(a < 0 for g in rec["gts"] for a in g):
                 ck.nontrivial += 1
             if "error" in o:
@@ -333,11 +335,12 @@ def main():
     tier = ck.tier
     ck.rule = (
         "TLC builds every haplotype record of the bounded domain (<= 2 ALT x <= 2 SNV sites over {A,C,G}, layouts of SNVPOS "
-        "incl. none, sorted GTs with '.', 4 posterior modes) through the build actions and atomizes it site by site; each "
+        "incl. none, two diploid samples with sorted GTs incl. '.', and a haploid+diploid pair with every ordered GT; 5 posterior modes: "
+        "none / ACP / un-normalised ACP + SNVDP / AFP / AFP '.') through the build actions and atomizes it site by site; each "
         "complete record is rendered to VCF, run through atomize_vcf and compared with the model lines. Non-trivial = record "
         "with >= 1 SNV site whose site numbering differs from the haplotype numbering, or with a monomorphic site, or a '.' allele."
     )
-    cfgs = ["MC_quick.cfg"] if tier == "quick" else ["MC_quick.cfg", "MC_thorough.cfg", "MC_tetra.cfg", "MC_ordered.cfg"]
+    cfgs = ["MC_quick.cfg", "MC_ordered.cfg"] if tier == "quick" else ["MC_quick.cfg", "MC_ordered.cfg", "MC_thorough.cfg", "MC_tetra.cfg"]
     wdir = os.path.join(ck.wd, "tmp")
     os.makedirs(wdir, exist_ok=True)
     shapes, crashes, info_counts, ok_for_multi = {}, {}, {}, []
@@ -405,6 +408,31 @@ def main():
                 ck.violation("projection-mismatch", {"field": f_, "detail": d, "record": rec, "multi_record_file": True},
                              key={"site": SITE, "field": f_, "shape": "multi-record"})
         ck.traces += 1
+
+    # ---- the real command line: `mchap atomize <file>` in a fresh interpreter, one file per record shape ----
+    cli = []
+    for shp, s in sorted(SHAPE_EXAMPLE.items()):
+        pth = os.path.join(wdir, "cli-%s.vcf" % shp)
+        with open(pth, "w") as fh:
+            fh.write(render(s["rec"], rid="C1"))
+        cli.append((shp, s, pth))
+    cres = pool.map_tasks("impl.c20", [{"op": "cli", "argv": ["atomize", pth]} for _, _, pth in cli], mode="jit", warm_first=False)
+    for (shp, s, pth), rr in zip(cli, cres):
+        if not rr["ok"]:
+            ck.machinery_failure("cli worker: %s" % rr["error"])
+        r = rr["result"]
+        ck.evaluations += 1
+        if r["rc"] != 0:
+            last = ([l for l in r["err"].strip().splitlines() if l.strip()] or ["?"])[-1]
+            ck.violation("shape-rejected", {"cli": "mchap atomize", "exit_status": r["rc"], "stderr_tail": r["err"][-300:],
+                                            "vcf_line": render(s["rec"], with_header=False).strip()},
+                         key={"site": SITE, "shape": shp, "error": last.split(":")[0].split(".")[-1]})
+            continue
+        bad, _ = compare_record(ck, s["rec"], s["lines"], r["out"])
+        for f_, d in bad:
+            ck.violation("projection-mismatch", {"cli": "mchap atomize", "field": f_, "detail": d, "record": s["rec"]},
+                         key={"site": "cli:atomize", "field": f_, "shape": shp})
+    ck.note("cli_runs", len(cli))
 
     # ---- code -> spec ------------------------------------------------------
     events, sources = [], []
@@ -534,7 +562,9 @@ def main():
     ck.note("trace_events", {"golden_or_run_records": sum(1 for s in sources if not s[0].startswith("random")),
                              "random_records": sum(1 for s in sources if s[0].startswith("random")),
                              "haplotype_files": len(hap_texts)})
-    good = [e for e in events if not e["crashed"] and any(l["alts"] for l in e["lines"])]
+    rejected = {p["reject"] - 1 for p in t.printed if "reject" in p}
+    good = [e for i, e in enumerate(events) if i not in rejected and not e["crashed"] and any(l["alts"] for l in e["lines"])
+            and e["lines"][0]["alts"] and e["lines"][0]["gt"][0][0] >= 0]
     if good:
         ck.sample({"kind": "atomized-record", "event": good[0]})
         # binding demonstration: corrupted recorded outputs must be rejected, each by the right clause
@@ -547,6 +577,7 @@ def main():
         b = copy.deepcopy(good[0]); b["lines"] = b["lines"][1:]; bads.append((b, "OneLinePerSite"))
         b = copy.deepcopy(good[0]); b["lines"][0]["ps"] += 1; bads.append((b, "PS"))
         multi = [e for e in good if any(len(l["alts"]) >= 2 for l in e["lines"])]
+        good = good[:1]
         if multi:
             b = copy.deepcopy(multi[0])
             for l in b["lines"]:
@@ -570,7 +601,7 @@ def main():
             if rej.get(i + 1) != clause:
                 ck.machinery_failure("corrupted trace %d not rejected by %s (got %s)" % (i + 1, clause, rej.get(i + 1)))
         ck.note("corrupted_traces_rejected", len(bads))
-    else:
+    elif not ck.violations:
         ck.machinery_failure("no accepted atomized record to corrupt")
     try:
         import shutil
